@@ -34,8 +34,9 @@ func famReorder() {
 	g := &gen{r: r, c: GenCfg{Custom: true, Alias: true, MaxKids: 4, Lists: true, Strings: true, Consts: true, ConstBias: 20}}
 	seen := map[string]bool{}
 	id := *fIDBase - 1
-	costVals := []float64{-3, 0, 0.5, 1, 7, 50, 1000, -0.25}
-	intVals := []float64{-3, 0, 1, 7, 50}
+	// (entries negative enough to make the estimated cost of a whole operand negative included)
+	costVals := []float64{-3, 0, 0.5, 1, 7, 50, 1000, -0.25, -21.5, -100, -1e6}
+	intVals := []float64{-3, 0, 1, 7, 50, -40}
 	var trees []*Tree
 	if *fCases != "" {
 		trees = append(trees, readCases(*fCases)...)
